@@ -248,7 +248,7 @@ fn exhaustive(ctx: &Ctx, rep: &mut Report, depth: usize, r: &mut Rng) {
     let a = alphabet();
     let base = a.len() as u64;
     let total = base.pow(depth as u32);
-    let ps = probes(&[None, Some(1), Some(2)]);
+    let ps = probes(&[None, Some(1), Some(255)]);
     let block = base.pow((depth - 2) as u32);
     let mut h = 0u64;
     while h < total {
@@ -414,6 +414,76 @@ fn interleaved_instances(ctx: &Ctx, rep: &mut Report, r: &mut Rng) {
     }
 }
 
+/// long runs of inert lines of one kind inside an open group: removing the whole run must
+/// change nothing (an 8- or 16-bit event counter inside the parser would show here)
+fn mass_inert_runs(ctx: &Ctx, rep: &mut Report, r: &mut Rng) {
+    let runs: [usize; 8] = [100, 255, 256, 257, 300, 600, 1100, 66_000];
+    let mut item = 0u64;
+    for &run in runs.iter() {
+        for kind in 0..6u64 {
+            if !ctx.mine(item) {
+                item += 1;
+                continue;
+            }
+            item += 1;
+            if run > 2000 && !(ctx.thorough() || kind == 0) {
+                continue;
+            }
+            let id = Some(r.below(10) as u8);
+            let n = 3u8;
+            let open = Some((n, 1u8, id));
+            let frag = |k: u8| (nmea_ref::mk(n, k, id, &uniq_payload(k as u64), 0), false);
+            let inert = |r: &mut Rng, i: usize| -> Line {
+                match kind {
+                    0 => (nmea_ref::mk(n, 3, id, &uniq_payload(900 + i as u64), 0), false), // skips ahead
+                    1 => (nmea_ref::mk(n, 2, Some(id.unwrap() ^ 1), &uniq_payload(900 + i as u64), 0), false), // wrong id
+                    2 => {
+                        let mut b = Build::simple(n, 2, id, b"A", &uniq_payload(900 + i as u64), 0);
+                        b.cks = Some(nmea_ref::xor(&b.body()) ^ 0x10);
+                        (b.line(), false)
+                    }
+                    3 => (b"!AIVDM,3,x,1,A,PPPP;,0*00".to_vec(), false),
+                    4 => (nmea_ref::mk(1, 1, None, b"15RTgt0PAso;90TKcjM8h6g208CQ", 0), true),
+                    _ => inert_line(r, &open, 900 + i as u64),
+                }
+            };
+            let mut with: Vec<Line> = vec![frag(1)];
+            for i in 0..run {
+                with.push(inert(r, i));
+            }
+            with.push(frag(2));
+            with.push(frag(3));
+            let without: Vec<Line> = vec![frag(1), frag(2), frag(3)];
+            let (ow, _) = run_hist(&with);
+            let (oo, _) = run_hist(&without);
+            rep.eval();
+            rep.class(format!("mass-run|kind{}|run{}", kind, run));
+            rep.count("mass_runs");
+            // the run must really have been inert (kind 5 is mixed: judge only if all rejected or unfragmented)
+            let all_inert = ow[1..=run].iter().zip(with[1..=run].iter()).all(|(o, (l, _))| {
+                o.is_err() || matches!(nmea_ref::scan(l), Scan::Accept(f) if f.n == 1 && f.k == 1)
+            });
+            if !all_inert {
+                rep.count("mass_runs_not_all_inert");
+                continue;
+            }
+            let same = ow[0] == oo[0] && ow[run + 1] == oo[1] && ow[run + 2] == oo[2];
+            if !same {
+                let mut short: Vec<Line> = vec![with[0].clone(), with[1].clone()];
+                short.push((format!("... {} more lines of the same kind ...", run - 1).into_bytes(), false));
+                short.push(with[run + 1].clone());
+                short.push(with[run + 2].clone());
+                rep.violation(
+                    PID,
+                    format!("trace-left-by-run-of-{}-inert-lines", if run >= 256 { "256-or-more" } else { "fewer-than-256" }),
+                    format!("a run of {} inert lines (kind {}) inside a 3-fragment group changes the group's results: continuation {} vs {}, final {} vs {}", run, kind, ow[run + 1].text(), oo[1].text(), ow[run + 2].text(), oo[2].text()),
+                    || mon::replay_history(&short, "mass-inert-run (run abbreviated)"),
+                );
+            }
+        }
+    }
+}
+
 pub fn stream(r: &mut Rng, salt: u64) -> Vec<Line> {
     let mut h = Vec::new();
     let groups = r.usize(1, 4);
@@ -442,11 +512,13 @@ pub fn run(ctx: &Ctx, rep: &mut Report) {
     exhaustive(ctx, rep, if ctx.thorough() { 5 } else { 4 }, &mut r);
     random_histories(ctx, rep, &mut r);
     interleaved_instances(ctx, rep, &mut r);
+    mass_inert_runs(ctx, rep, &mut r);
     rep.require("removed:Malformed");
     rep.require("removed:BadChecksum");
     rep.require("removed:Sequencing");
     rep.require("removed:Unfragmented");
     rep.require("interleavings");
+    rep.require("mass_runs");
     rep.sample(3, || {
         let mut o = J::obj();
         o.set("history", J::Arr(vec![J::bytes(&nmea_ref::mk(3, 1, Some(1), &uniq_payload(1), 0)), J::s("<perfect fragment 2/3 with a wrong checksum>  (removed in the twin run)"), J::bytes(&nmea_ref::mk(3, 2, Some(1), &uniq_payload(3), 0)), J::bytes(&nmea_ref::mk(3, 3, Some(1), &uniq_payload(4), 0))]));
